@@ -229,7 +229,9 @@ pub fn run(mon: &dyn Monitor, cfg: &RunCfg) -> i32 {
                         skipped.fetch_add(1, Ordering::Relaxed);
                         continue;
                     }
+                    journal(&format!("START {label}"));
                     let res = guard(|| mon.run_case(label, cfg.seed, cfg.tier));
+                    journal(&format!("END {label}"));
                     let mut a = agg.lock().unwrap();
                     match res {
                         Ok(out) => {
@@ -439,6 +441,20 @@ pub fn run(mon: &dyn Monitor, cfg: &RunCfg) -> i32 {
         return 2;
     }
     0
+}
+
+/// crash journal: if the process dies (stack overflow, abort) the driver finds the cases that were in
+/// flight and re-runs each one in isolation to see whether the crash reproduces
+fn journal(line: &str) {
+    use std::io::Write;
+    static J: std::sync::OnceLock<Option<Mutex<std::fs::File>>> = std::sync::OnceLock::new();
+    let j = J.get_or_init(|| std::env::var("VERIF_JOURNAL").ok().and_then(|p| std::fs::File::create(p).ok()).map(Mutex::new));
+    if let Some(m) = j {
+        if let Ok(mut f) = m.lock() {
+            let _ = writeln!(f, "{line}");
+            let _ = f.flush();
+        }
+    }
 }
 
 fn strip_line(loc: &str) -> String {
